@@ -238,10 +238,24 @@ impl Entities {
     ) -> Result<Self> {
         let checker = schema.map(|schema| EntitySchemaConformanceChecker::new(schema, extensions));
         let mut entities_touched: HashSet<EntityUID> = HashSet::new();
-        for entity in collection.into_iter() {
+        // When the collection itself contains several versions of one entity, only the
+        // latest version is kept: stripping against an intermediate version (whose
+        // ancestors are not transitively closed yet) would leave stale TC edges behind.
+        let mut latest: Vec<Arc<Entity>> = Vec::new();
+        let mut seen: HashSet<EntityUID> = HashSet::new();
+        let collection: Vec<Arc<Entity>> = collection.into_iter().collect();
+        for entity in &collection {
             if let Some(checker) = checker.as_ref() {
-                checker.validate_entity(&entity)?;
+                checker.validate_entity(entity)?;
             }
+        }
+        for entity in collection.into_iter().rev() {
+            if seen.insert(entity.uid().clone()) {
+                latest.push(entity);
+            }
+        }
+        latest.reverse();
+        for entity in latest {
             let uid = entity.uid().clone();
             // If overwriting an existing entity, strip stale TC edges from its descendants
             if let Some(old_entity) = self.entities.get(&uid) {
